@@ -33,7 +33,7 @@ NoLogs == [blog |-> <<>>, dlog |-> <<>>]
 NoPrev == [ok |-> FALSE, targets |-> {}]
 NoTw == [mode |-> 0, kind |-> "", k |-> 0, sums |-> <<>>, skip |-> FALSE]
 EmptyG == [srcs |-> <<>>, pools |-> <<>>, stmts |-> <<>>]
-Stats0 == [execs |-> 0, invokes |-> 0, starts |-> 0, nontrivial |-> 0, kf |-> 0, cyclic |-> 0, died |-> 0, interrupted |-> 0, failing |-> 0, dry |-> 0, twins |-> 0]
+Stats0 == [execs |-> 0, invokes |-> 0, starts |-> 0, nontrivial |-> 0, kf |-> 0, cyclic |-> 0, died |-> 0, interrupted |-> 0, failing |-> 0, dry |-> 0, twins |-> 0, cleans |-> 0]
 
 Init == /\ l = 1 /\ meta = [sc |-> "", run |-> 0, eskip |-> {}, logs |-> NoLogs] /\ g = EmptyG
         /\ L = <<>> /\ F = {} /\ FT = {} /\ iv = NoIv /\ prev = NoPrev
@@ -78,7 +78,7 @@ TEnv ==
 TInvoke ==
   /\ Is("Invoke")
   /\ LET T == E.tree
-         tg == ToS(E.targets)
+         tg == IF E.targets = <<>> THEN RootOuts(g) ELSE ToS(E.targets)
          need == Needed(g, T, L, tg)
          acyc == AcyclicN(g, T, L, need)
          exp == IF acyc THEN ExpectedRun(g, T, L, F, tg) ELSE {}
@@ -93,7 +93,7 @@ TInvoke ==
                started |-> <<>>, doneOK |-> {}, failed |-> {}, codes |-> {}, run |-> {}, nfail |-> 0,
                skipped |-> {}, ticks |-> {}, stStarted |-> {}, stFinished |-> {}, cnt |-> [tot |-> 0, st |-> 0, fin |-> 0],
                interrupted |-> FALSE, killed |-> {}, partial |-> {}, startsAfterBudget |-> 0, loaded |-> NoLogs, kfSeen |-> ""]
-  /\ stats' = [stats EXCEPT !.invokes = @ + 1, !.cyclic = @ + (IF AcyclicN(g, E.tree, L, Needed(g, E.tree, L, ToS(E.targets))) THEN 0 ELSE 1),
+  /\ stats' = [stats EXCEPT !.invokes = @ + 1, !.cyclic = @ + (IF AcyclicN(g, E.tree, L, Needed(g, E.tree, L, IF E.targets = <<>> THEN RootOuts(g) ELSE ToS(E.targets))) THEN 0 ELSE 1),
                              !.failing = @ + (IF Len(E.fail) > 0 THEN 1 ELSE 0), !.dry = @ + (IF E.dry THEN 1 ELSE 0)]
   /\ UNCHANGED <<meta, g, L, F, FT, prev, relax, taint, afterCrash, tw, viol>> /\ Step
 
@@ -349,6 +349,50 @@ TExit ==
   /\ meta' = [meta EXCEPT !.eskip = @ \cup {i \in iv.skipped : UsesDeps(St(g, i)) /\ L[i].rec # {}}, !.logs = [blog |-> E.logs.blog, dlog |-> E.logs.dlog]]
   /\ UNCHANGED <<g, L, F, FT>> /\ Step
 
+(***************************************************************************)
+(* C18: -t clean (all / targets / rules, -g, -n) and -t cleandead.          *)
+(* Scope is a set comprehension over the manifest (with the dyndep          *)
+(* information of the files that exist, as the tool loads them first):      *)
+(* removed must lie inside it and outside sources and phony names, every    *)
+(* existing file of the scope must go (dry run: be counted, not removed).   *)
+(***************************************************************************)
+CleanEv == E
+DdKnown(T, i) == LET s == St(g, i) IN s.dd = "" \/ Exists(T, s.dd)
+\* the graph as the tool knows it: dyndep information only of files that exist
+GK(T) == [g EXCEPT !.stmts = [i \in DOMAIN g.stmts |-> IF DdKnown(T, i) THEN g.stmts[i] ELSE [g.stmts[i] EXCEPT !.ddi = <<>>, !.ddo = <<>>]]]
+EdgeFiles(gg, i) == LET s == gg.stmts[i] IN
+  Outs(s) \cup (IF s.deps \in {"depfile", "gcc"} THEN {DepfilePath(s)} ELSE {}) \cup (IF s.rsp THEN {s.rsppath} ELSE {})
+RECURSIVE CleanClose(_, _, _)
+CleanClose(gg, S, fuel) ==
+  LET nxt == (S \cup {Prod(gg, f) : f \in UNION {ManIn(gg.stmts[i]) \cup ToS(gg.stmts[i].oo) : i \in S}}) \ {0}
+  IN IF nxt = S \/ fuel = 0 THEN S ELSE CleanClose(gg, nxt, fuel - 1)
+CleanScope(gg, T, ev, blog) ==
+  CASE ev.mode = "all" -> UNION {EdgeFiles(gg, i) : i \in {j \in DOMAIN gg.stmts : ~gg.stmts[j].phony /\ (ev.gflag \/ ~gg.stmts[j].gen)}}
+    [] ev.mode = "targets" -> UNION {EdgeFiles(gg, i) : i \in {j \in CleanClose(gg, {Prod(gg, t) : t \in ToS(ev.args)} \ {0}, Len(gg.stmts) + 1) : ~gg.stmts[j].phony}}
+    [] ev.mode = "rules" -> UNION {EdgeFiles(gg, i) : i \in {j \in DOMAIN gg.stmts : ~gg.stmts[j].phony /\ ("r" \o ToString(gg.stmts[j].id)) \in ToS(ev.args)}}
+    [] ev.mode = "dead" -> {blog[k].o : k \in DOMAIN blog} \ (AllOuts(gg) \cup UNION {ManIn(gg.stmts[i]) \cup ToS(gg.stmts[i].oo) : i \in DOMAIN gg.stmts})
+TClean ==
+  /\ Is("Clean")
+  /\ LET T == E.pre
+         gg == GK(T)
+         scope == CleanScope(gg, T, E, meta.logs.blog)
+         removed == ToS(E.removed)
+         existing == {f \in scope : Exists(T, f)}
+         protected == ToS(g.srcs) \cup UNION {Outs(St(g, i)) : i \in {j \in Ids(g) : St(g, j).phony}}
+         vs == (IF ~(removed \subseteq scope) THEN {V("C18", "clean removed a file outside its scope", "")} ELSE {})
+               \cup (IF removed \cap protected # {} THEN {V("C18", "clean removed a source file or a phony name", "")} ELSE {})
+               \cup (IF ~E.gflag /\ E.mode = "all" /\ \E i \in Ids(g) : St(g, i).gen /\ removed \cap Outs(St(g, i)) # {}
+                     THEN {V("C18", "clean without -g removed a generator output", "")} ELSE {})
+               \cup (IF ~E.n /\ removed # existing THEN {V("C18", "clean did not remove every existing file of its scope", "")} ELSE {})
+               \cup (IF E.n /\ (removed # {} \/ E.done.count # Cardinality(existing)) THEN {V("C18", "dry-run clean removed something or reported a wrong count", "")} ELSE {})
+               \cup (IF {E.tree[k].n : k \in DOMAIN E.tree} # Names(T) \ removed THEN {V("C18", "file tree after clean is not the tree before minus the removed files", "")} ELSE {})
+               \cup (IF E.done.status < 0 THEN {V("C18", "the clean tool crashed or could not load the manifest", "")} ELSE {})
+     IN viol' = viol \cup vs
+  /\ g' = E.g
+  /\ prev' = NoPrev
+  /\ stats' = [stats EXCEPT !.cleans = @ + 1]
+  /\ UNCHANGED <<meta, L, F, FT, iv, relax, taint, afterCrash, tw>> /\ Step
+
 \* the process died (crash point) or ended abnormally
 TDied ==
   /\ Is("Died")
@@ -371,7 +415,7 @@ TFlush ==
   /\ UNCHANGED <<meta, g, L, F, FT, iv, prev, relax, taint, afterCrash, tw, viol, stats>>
 
 Next == TReset \/ TEnv \/ TInvoke \/ TLoaded \/ THook \/ TStatus \/ TStart \/ TEditRun \/ TDone \/ TInterrupt
-        \/ TAbort \/ TSkip \/ TExit \/ TDied \/ TAbnormal \/ TFlush
+        \/ TAbort \/ TSkip \/ TClean \/ TExit \/ TDied \/ TAbnormal \/ TFlush
 
 Spec == Init /\ [][Next]_vars
 
